@@ -79,7 +79,7 @@ def run_and_validate(ctx, scenarios, tag, bound=None, batch=60, module="Trace_Ra
     byid = {s["id"]: s for s in scenarios}
     items = []
     summary = {"scenarios": len(scenarios), "done": 0, "hang": 0, "crash": 0, "error": 0, "accepted": 0, "rejected": 0,
-               "events": 0, "tlc_states": 0}
+               "events": 0, "tlc_states": 0, "tlc_generated": 0}
     for sid, o in outcomes.items():
         summary[o["status"]] = summary.get(o["status"], 0) + 1
     missing = [s["id"] for s in scenarios if s["id"] not in outcomes]
@@ -122,6 +122,7 @@ def run_and_validate(ctx, scenarios, tag, bound=None, batch=60, module="Trace_Ra
         nrej += len(v.rejected)
         summary["events"] += v.events
         summary["tlc_states"] += v.tlc_states
+        summary["tlc_generated"] += v.tlc_generated
         for sid, idx, unmatched, detail in v.rejected:
             s = byid[sid]
             rd = ctx.replay_dir("%s-%s" % (tag, sid))
